@@ -164,7 +164,7 @@ structure Res (α : Type) where
 
 namespace Res
 
-def pure (a : α) : Res α := ⟨[], .ok a⟩
+def ret (a : α) : Res α := ⟨[], .ok a⟩
 def raise (e : Raised) : Res α := ⟨[], .error e⟩
 def emit (ev : Event) : Res Unit := ⟨[ev], .ok ()⟩
 
@@ -174,7 +174,7 @@ def bind (x : Res α) (f : α → Res β) : Res β :=
   | .ok a => let y := f a; ⟨x.trace ++ y.trace, y.out⟩
 
 instance : Monad Res where
-  pure := Res.pure
+  pure := Res.ret
   bind := Res.bind
 
 @[simp] theorem pure_trace (a : α) : (Pure.pure a : Res α).trace = [] := rfl
